@@ -91,7 +91,8 @@ impl ValueParser {
         r#type: &ScalarType,
     ) -> ScalarValue {
         fn render_scalar<S: Copy + Display>(data: Option<ObjectBinaryRepr>) -> Option<S> {
-            data.as_ref().map(|v| scalar_from_bytes::<S>(&v.raw_data))
+            data.as_ref()
+                .and_then(|v| scalar_from_bytes::<S>(&v.raw_data))
         }
         let in_debugee_loc = data.as_ref().and_then(|d| d.address);
         #[allow(non_upper_case_globals)]
@@ -152,19 +153,12 @@ impl ValueParser {
                     None
                 }
             },
-            DW_ATE_boolean => render_scalar::<bool>(data).map(SupportedScalar::Bool),
-            DW_ATE_UTF => render_scalar::<char>(data).map(|char| {
-                // WAITFORFIX: https://github.com/rust-lang/rust/issues/113819
-                // this check is meaningfully here cause in case above there is a random bytes here,
-                // and it may lead to panic in other places
-                // (specially when someone tries to render this char)
-                if String::from_utf8(char.to_string().into_bytes()).is_err() {
-                    SupportedScalar::Char('?')
-                } else {
-                    SupportedScalar::Char(char)
-                }
-            }),
-            DW_ATE_ASCII => render_scalar::<char>(data).map(SupportedScalar::Char),
+            // `bool` and `char` have invalid bit patterns, debugee memory may contain any bytes
+            // (uninitialized variables for example), so never read these types directly
+            DW_ATE_boolean => render_scalar::<u8>(data).map(|b| SupportedScalar::Bool(b != 0)),
+            DW_ATE_UTF => render_scalar::<u32>(data)
+                .map(|code| SupportedScalar::Char(char::from_u32(code).unwrap_or('?'))),
+            DW_ATE_ASCII => render_scalar::<u8>(data).map(|b| SupportedScalar::Char(b as char)),
             _ => {
                 warn!("parse scalar: unexpected base type encoding: {encoding}");
                 None
@@ -359,7 +353,7 @@ impl ValueParser {
     ) -> PointerValue {
         let mb_ptr = data
             .as_ref()
-            .map(|v| scalar_from_bytes::<*const ()>(&v.raw_data));
+            .and_then(|v| scalar_from_bytes::<*const ()>(&v.raw_data));
 
         let mut type_ident = pcx.type_graph.identity(type_id);
         if type_ident.is_unknown()
@@ -690,8 +684,13 @@ impl ValueParser {
     }
 }
 
+/// Read a plain-old-data value from fetched bytes, `None` if there are not enough bytes
+/// (optimized out variable for example).
 #[inline(never)]
-fn scalar_from_bytes<T: Copy>(bytes: &Bytes) -> T {
+fn scalar_from_bytes<T: Copy>(bytes: &Bytes) -> Option<T> {
+    if bytes.len() < std::mem::size_of::<T>() {
+        return None;
+    }
     let ptr = bytes.as_ptr();
-    unsafe { std::ptr::read_unaligned::<T>(ptr as *const T) }
+    Some(unsafe { std::ptr::read_unaligned::<T>(ptr as *const T) })
 }
